@@ -469,7 +469,15 @@ impl OwnedValue {
         idx: usize,
     ) -> Result<()> {
         match self {
-            OwnedValue::Null => builder.set_null(idx),
+            OwnedValue::Null => {
+                eyre::ensure!(
+                    idx < builder.column_count(),
+                    "column {} not found: the record has {} columns",
+                    idx,
+                    builder.column_count()
+                );
+                builder.set_null(idx)
+            }
             OwnedValue::Bool(b) => builder.set_bool(idx, *b)?,
             OwnedValue::Int(i) => builder.set_int_auto(idx, *i)?,
             OwnedValue::Float(f) => builder.set_float_auto(idx, *f)?,
